@@ -818,6 +818,13 @@ def digest_pairing(ctx, rid):
                 vals = [p for w, p in ctx.res.bindings(fn).get(e.id, []) if w == "value"]
                 if len(vals) == 1:
                     return expand(vals[0], depth + 1)
+            if isinstance(e, ast.Attribute) and isinstance(e.value, ast.Name) and e.value.id == fn.self_name and fn.cls is not None and depth < 5:
+                # self.width, assigned once in the class (a constant kept on the object)
+                vals = [n.value for m in fn.cls.methods.values() for n in own_nodes(m.node) if isinstance(n, ast.Assign) and len(n.targets) == 1
+                        and isinstance(n.targets[0], ast.Attribute) and n.targets[0].attr == e.attr and isinstance(n.targets[0].value, ast.Name) and n.targets[0].value.id == m.self_name]
+                vals += fn.cls.class_assigns.get(e.attr, [])
+                if len(vals) == 1:
+                    return expand(vals[0], depth + 1)
             return e
         presplit = _presplit_lookup(ctx, fn, consts) if not slices else None
         if presplit is not None and presplit[0] is None:
@@ -838,6 +845,9 @@ def digest_pairing(ctx, rid):
                 ctx.undecided(rid, fn, "slice bounds not linear: %s" % norm(sl), sl)
                 continue
             width = hi.sub(lo)
+        if not width.is_const():
+            ctx.undecided(rid, fn, "the width of the recorded hash slice, `%s`, could not be reduced to a number" % (width,), sl)
+            continue
         ok_w = width.is_const() and width.c == H
         ctx.decide(rid, fn, ok_w, "recorded hash slice is %d bytes wide = digest size of %s" % (H, algo),
                    "recorded hash slice is %s bytes wide; the computed side is %s (%d bytes): computed and recorded hashes can never be equal / are misaligned" % (width, algo, H), sl)
